@@ -82,6 +82,27 @@ fn generate(text: &str, attrs: &str) -> Result<String, String> {
     catch_unwind(AssertUnwindSafe(|| pest_typed_generator::derive_typed_parser(input, false, true).to_string())).map_err(|e| vutil::panic_text(&*e))
 }
 
+/// The same grammar given as two `#[grammar_inline]` sources (split before a rule definition).
+fn generate_split(text: &str) -> Option<Result<String, String>> {
+    let starts: Vec<usize> = text
+        .match_indices('\n')
+        .map(|(i, _)| i + 1)
+        .filter(|i| {
+            let rest = &text[*i..];
+            let id: String = rest.chars().take_while(|c| c.is_alphanumeric() || *c == '_').collect();
+            !id.is_empty() && rest[id.len()..].trim_start().starts_with('=')
+        })
+        .collect();
+    let cut = *starts.get(starts.len() / 2)?;
+    let (a, b) = (&text[..cut], &text[cut..]);
+    let input = quote! {
+        #[grammar_inline = #a]
+        #[grammar_inline = #b]
+        struct Parser;
+    };
+    Some(catch_unwind(AssertUnwindSafe(|| pest_typed_generator::derive_typed_parser(input, false, true).to_string())).map_err(|e| vutil::panic_text(&*e)))
+}
+
 /// Deliberately ill-formed grammars by category, plus well-formed look-alikes.
 fn invalid_family() -> Vec<(String, String)> {
     let mut v: Vec<(String, String)> = Vec::new();
@@ -283,6 +304,30 @@ pub fn c11(args: &Args) {
                 }
                 (PestVerdict::OtherError(_), _) => l.count("other_pest_error_outside_the_four_categories"),
                 (PestVerdict::SyntaxError, _) => {}
+            }
+            // several grammar sources are one grammar: same verdict as for the concatenation
+            if let Some(split) = generate_split(text) {
+                l.count("two_source_derives");
+                match (&pv, &split) {
+                    (PestVerdict::Rejected(cat, _), Ok(_)) => l.violation(
+                        format!("unclassified/C11/accepted-ill-formed-grammar-in-two-sources/{}", cat),
+                        format!("given as two #[grammar_inline] sources the grammar is accepted although pest's validator rejects it ({})", cat),
+                        wit(),
+                    ),
+                    (PestVerdict::Accepted, Err(e)) => l.violation(
+                        "unclassified/C11/generator-panics-on-valid-grammar-in-two-sources",
+                        format!("given as two #[grammar_inline] sources the generator panics: {}", e.chars().take(200).collect::<String>()),
+                        wit(),
+                    ),
+                    (PestVerdict::Accepted, Ok(code)) => {
+                        if let Ok(one) = &gen {
+                            if one != code {
+                                l.count("two_source_output_differs_from_single_source");
+                            }
+                        }
+                    }
+                    _ => {}
+                }
             }
             if k % 41 == 3 {
                 l.sample(json!({"name": name, "grammar": text.chars().take(200).collect::<String>(), "pest_meta": format!("{:?}", pv).chars().take(160).collect::<String>(), "generator_refused": gen.is_err()}));
